@@ -405,9 +405,10 @@ impl<'a> Info<'a> {
         result
     }
     pub fn encode<'d, 's>(&self, mut _p: Packer<'d, 's>) -> Result<&'d [u8], CapacityError> {
-        assert!(self.password.is_some());
         _p.write_string(self.version)?;
-        _p.write_string(self.password.unwrap())?;
+        if let Some(v) = self.password {
+            _p.write_string(v)?;
+        }
         Ok(_p.written())
     }
 }
@@ -531,10 +532,13 @@ impl RconAuthStatus {
         result
     }
     pub fn encode<'d, 's>(&self, mut _p: Packer<'d, 's>) -> Result<&'d [u8], CapacityError> {
-        assert!(self.auth_level.is_some());
-        assert!(self.receive_commands.is_some());
-        _p.write_int(self.auth_level.unwrap())?;
-        _p.write_int(self.receive_commands.unwrap())?;
+        assert!(self.auth_level.is_some() || self.receive_commands.is_none());
+        if let Some(v) = self.auth_level {
+            _p.write_int(v)?;
+        }
+        if let Some(v) = self.receive_commands {
+            _p.write_int(v)?;
+        }
         Ok(_p.written())
     }
 }
@@ -664,10 +668,11 @@ impl<'a> RconAuth<'a> {
         result
     }
     pub fn encode<'d, 's>(&self, mut _p: Packer<'d, 's>) -> Result<&'d [u8], CapacityError> {
-        assert!(self.request_commands.is_some());
         _p.write_string(self._unused)?;
         _p.write_string(self.password)?;
-        _p.write_int(self.request_commands.unwrap())?;
+        if let Some(v) = self.request_commands {
+            _p.write_int(v)?;
+        }
         Ok(_p.written())
     }
 }
